@@ -11,6 +11,8 @@ open Gp
 
 def pbytes (l : List Page) : List UInt8 := (l.map (fun q => q.bytes)).flatten
 
+theorem flat_app (a b : List Cont) : flat (a ++ b) = flat a ++ flat b := by simp [flat]
+
 theorem flat_toCont (ps : List Page) : flat (ps.map Page.toCont) = pbytes ps := by
   induction ps with
   | nil => rfl
@@ -62,7 +64,7 @@ theorem addContiguous_contig (A : Arith) (h : Half) (last : Int) (ret : List Con
   | cons p rest =>
     simp only [if_neg hlast]
     obtain ⟨taken, h1, h2, h3⟩ := addContiguousAux_contig A (p :: rest) last ret
-    exact ⟨taken, h1, h2, h3, rfl, rfl⟩
+    exact ⟨taken, h1, h2, h3, by first | rfl | trivial, by first | rfl | trivial⟩
 
 /-- the shape of one `sendToConnection` that starts with the queued page `p` -/
 theorem send_group (A : Arith) (hA : ∀ s n, A.add s n ≠ invalidSeq) (h : Half) (used : Int) (p : Page) (ts : Int)
@@ -82,7 +84,7 @@ theorem send_group (A : Arith) (hA : ∀ s n, A.add s n ≠ invalidSeq) (h : Hal
   obtain ⟨h2, e, all⟩ := ac
   simp only at hs hac1 hac2 hac4 hac5
   have hnew : (flat all).drop savedLen = pbytes (p :: taken) := by
-    rw [hac2, hap1, hap2, flat_append, flat_append, flat_toCont, flat_toCont, ← pbytes_len pre, List.append_assoc,
+    rw [hac2, hap1, hap2, flat_app, flat_app, flat_toCont, flat_toCont, ← pbytes_len pre, List.append_assoc,
       List.drop_left]
     simp [flat, pbytes, Page.toCont]
   split at hs
@@ -120,10 +122,6 @@ theorem skipFlush_group (A : Arith) (hA : ∀ s n, A.add s n ≠ invalidSeq) (h 
     · simp only; split <;> exact h5
   · cases hs
   · cases hs
-
-/-- a block of queued pages handed over by one ReassembledSG call of an age flush -/
-def GroupIn (A : Arith) (T : Int) (q : List Page) (g : SG) : Prop :=
-  ∃ pre grp post, q = pre ++ grp ++ post ∧ OldGroup A T grp g
 
 theorem GroupIn.shift {A T q g} (front : List Page) (h : GroupIn A T q g) : GroupIn A T (front ++ q) g := by
   obtain ⟨pre, grp, post, h1, h2⟩ := h
